@@ -430,6 +430,7 @@ def run(facts, tier, ctx):
     eb.require_floor(1, "frame entry point")
     out.append(eb)
     out.append(rule_scan(facts))
+    out.append(rule_scan_bounds(facts))
     # the block_size argument of the stream encoders is an API argument like any other: outside 16..=65535 it must give an
     # error, whichever helper happens to enforce it (C04's rule; the argument is not taken from the verified config)
     from . import c04
@@ -544,3 +545,107 @@ def rule_scan(facts):
                             % (": " + path_str(b, p) if p else " (no scan of channel_slice(..) found)")))
     sc.require_floor(2, "scan obligations")
     return sc
+
+
+# ------------------------------------------------------------------------------------------------ SCAN/bounds
+# The scan of SCAN/samples rejects exactly the samples outside the declared two's-complement width: the conditions under
+# which verify_samples returns Ok (path facts of the effect interpreter, the crate's array scanners kept opaque and
+# replaced by their meaning) are evaluated for every declared width on the boundary values of the channel's minimum and
+# maximum; Ok must be reachable iff  -2^(b-1) <= min  and  max <= 2^(b-1) - 1.
+
+def rule_scan_bounds(facts):
+    from . import lib_effect as E
+    rr = RuleResult("SCAN/bounds", "verify_samples accepts a channel iff its samples lie in -2^(b-1) ..= 2^(b-1)-1")
+    b = facts.bodies.get("source::FrameBuf::verify_samples")
+    if b is None:
+        rr.fail(Finding("SCAN/bounds", "source::FrameBuf::verify_samples", "anchor-missing", 0, "", "verify_samples not found"))
+        return rr
+    ectx = E.Ctx(facts)
+    ectx.collect_asserts = True
+    ectx.noinline = [r"^arrayutils::"]
+    try:
+        E.Interp(ectx, b).run()
+    except E.Undecided as e:
+        rr.fail(Finding("SCAN/bounds", b.id, "undecided", 0, b.loc(), "cannot summarise %s: %s" % (b.id, e)))
+        return rr
+    oks = [r for r in ectx.ok_returns if r[0] == b.id]
+    if not oks:
+        rr.fail(Finding("SCAN/bounds", b.id, "undecided", 0, b.loc(), "no Ok return recorded for %s" % b.id))
+        return rr
+
+    class Unmodelled(Exception):
+        pass
+
+    def subst(e, dmin, dmax):
+        """Replace the results of the crate's array scanners by their meaning for a channel with the given extremes."""
+        if not isinstance(e, tuple) or not e:
+            return e
+        if e[0] == "proj" and isinstance(e[1], tuple) and e[1] and e[1][0] == "call" and e[1][1].startswith("arrayutils::"):
+            name = e[1][1].split("::<")[0]
+            if name == "arrayutils::find_min_and_max" and len(e[1][2]) == 2 and e[2] in ((".0",), (".1",)):
+                init = E.evalv(e[1][2][1], {}, facts)
+                if not isinstance(init, int):
+                    raise Unmodelled("find_min_and_max with a non-constant initial value")
+                return E.C(min(dmin, init) if e[2] == (".0",) else max(dmax, init))
+            raise Unmodelled(name)
+        if e[0] == "call" and isinstance(e[1], str) and e[1].startswith("arrayutils::"):
+            name = e[1].split("::<")[0]
+            if name == "arrayutils::find_max_abs" and len(e[2]) == 1:
+                return E.C(max(abs(dmin), abs(dmax)))
+            raise Unmodelled(name)
+        return tuple(subst(x, dmin, dmax) if isinstance(x, tuple) else x for x in e)
+
+    def mentions_scanner(e):
+        return E.mentions(e, lambda x: isinstance(x, tuple) and x and x[0] == "call" and isinstance(x[1], str)
+                          and x[1].startswith("arrayutils::"))
+
+    rows = 0
+    bad = None
+    for okr in oks:
+        conds = []
+        for f in okr[2]:
+            if f[0] in ("forall", "ifnonempty") and mentions_scanner(f[2]):
+                conds.append((f[2], f[3]))
+            elif f[0] == "cond" and mentions_scanner(f[1]):
+                conds.append((f[1], f[2]))
+        if not conds:
+            bad = (None, "the Ok return at %s carries no condition on a scan result" % b.loc(okr[1], "term"))
+            break
+        for bits in (4, 8, 9, 12, 16, 20, 24):
+            h = 1 << (bits - 1)
+            vals = [-h - 1, -h, -h + 1, -1, 0, 1, h - 1, h, h + 1]
+            for dmin in vals:
+                for dmax in vals:
+                    if dmin > dmax:
+                        continue
+                    rows += 1
+                    try:
+                        got = True
+                        for ce, cv in conds:
+                            v = E.evalv(subst(ce, dmin, dmax), {2: bits}, facts)
+                            if not isinstance(v, int):
+                                raise Unmodelled("condition %s is not evaluable" % E.show(ce)[:160])
+                            if v != cv:
+                                got = False
+                    except Unmodelled as u:
+                        bad = (None, "the accept condition is not decided: %s" % u)
+                        break
+                    want = dmin >= -h and dmax <= h - 1
+                    if got != want:
+                        bad = ((bits, dmin, dmax), "a channel with minimum %d and maximum %d is %s for %d-bit samples "
+                               "(declared range %d ..= %d)" % (dmin, dmax, "accepted" if got else "rejected", bits, -h, h - 1))
+                        break
+                if bad:
+                    break
+            if bad:
+                break
+        if bad:
+            break
+    if bad is None:
+        rr.ok({"function": b.id, "rows": rows, "verdict": "accept iff -2^(b-1) <= min and max <= 2^(b-1)-1 on every row"})
+    else:
+        rr.fail(Finding("SCAN/bounds", b.id, "sample-range" if bad[0] else "undecided", 0, b.loc(),
+                        "FrameBuf::verify_samples: %s. Samples outside the declared width must be refused with an error, "
+                        "samples inside it accepted" % bad[1]))
+    rr.require_floor(1, "sample-range scans")
+    return rr
